@@ -117,6 +117,9 @@ def gen_case(rnd, idx):
         spec = g.comp(kind, None, 9.0, name="X")
         if kind == "PMux":
             g.mux_rs(spec, 2)
+    if kind == "LinReg" and "ig" in spec["p"] and not isinstance(spec["p"]["ig"], dict) and rnd.random() < 0.3:
+        # both spellings present: the constructor lets a non-zero iq win
+        spec["p"]["iq"] = round(abs(spec["p"]["ig"]) * 3.0 + 1e-4, 9)
     if kind == "Rectifier" and "vdrop" not in spec["p"]:
         spec["p"]["vdrop"] = 0.0  # mandatory in the file schema
     if kind == "Converter" and isinstance(spec["p"]["eff"], (int, float)):
